@@ -46,6 +46,9 @@ func checkC04(c *Ctx) {
 	c.NotDec = "exactness of Blockchain.Extends (a loop over arbitrary forests; an opaque atom here, see C13); that the published rules are themselves safe; that a QC's view label is its block's view (C02.3)."
 	c.Assume = append(c.Assume, "within one evaluation of a rule, two look-ups of the same hash return the same block (the block store is content-addressed, C13)")
 	c.Expect("C04.1", 6)
+	// the "extends" atom of the tables: Blockchain.Extends descends by parent hash while the view is higher and answers
+	// by hash equality (the structural part of C13.6; its exactness on arbitrary forests stays undecided)
+	c.importFrom(checkC13, "C04.6", "C13.6")
 
 	specs := []ruleSpec{chainedCommit(), chainedVote(), fastCommit(), fastVote(), simpleCommit(), simpleVote()}
 	for _, s := range specs {
